@@ -53,6 +53,7 @@ type CallRec struct {
 	Diff  [][2]any   `json:"diff,omitempty"` // runs of changed bytes: [start, hex of the new bytes]
 	WinLo uint64     `json:"wlo"`
 	Win   string     `json:"win"`           // hex of the bytes [wlo, wlo+len) before the call (zeros beyond size0)
+	DiffTrunc bool   `json:"difftrunc,omitempty"` // more than 400000 bytes changed: the list is incomplete
 	Big   bool       `json:"big,omitempty"` // the addressed ranges span too much for one window
 	Segs  [][2]any   `json:"segs,omitempty"` // then: the bytes around every addressed range separately
 }
@@ -323,6 +324,7 @@ func runGuardProg(p *Prog, engine string, seed uint64, say func(string)) (po Pro
 			po.Err = "cannot read the memory"
 			return
 		}
+		diffBytes := uint64(0)
 		for i := uint64(0); i < size1; {
 			if after[i] == shadow[i] {
 				i++
@@ -332,12 +334,11 @@ func runGuardProg(p *Prog, engine string, seed uint64, say func(string)) (po Pro
 			for j < size1 && after[j] != shadow[j] {
 				j++
 			}
-			if len(rec.Diff) < 64 {
-				run := after[i:j]
-				if len(run) > 70000 {
-					run = run[:70000]
-				}
-				rec.Diff = append(rec.Diff, [2]any{i, hex.EncodeToString(run)})
+			if diffBytes+(j-i) <= 400000 {
+				rec.Diff = append(rec.Diff, [2]any{i, hex.EncodeToString(after[i:j])})
+				diffBytes += j - i
+			} else {
+				rec.DiffTrunc = true
 			}
 			copy(shadow[i:j], after[i:j])
 			i = j
